@@ -444,3 +444,28 @@ def repair_sext_element(f):
       else: items.append((it[0], it[1], it[2], [(p, fix(m, e)) for p, e in it[3]]))
     m['items'] = items
   return count[0]
+
+# ---------------------------------------------------------------------- signature: downward loop whose unsigned counter wraps
+def wrapping_loops(f):
+  """for ( int unsigned i = a; i > b; i -= s ) whose counter passes below zero before the condition fails: `int unsigned`
+  wraps to 2^32 - k, the condition stays true and the loop does not stop where range(a, b, -s) stops"""
+  hits = []
+  P = svparse.Parser('')
+  def st(x, mname):
+    if x[0] == 'if':
+      for y in x[2] + x[3]: st(y, mname)
+    elif x[0] == 'for':
+      _, v, init, cmp, bound, inc, step, body = x
+      P.cur = {'params': []}
+      a, b, c = P.fold(init), P.fold(bound), P.fold(step)
+      if inc == 'BSub' and None not in (a, b, c) and c > 0 and cmp in ('BGt', 'BGe'):
+        val, n = a, 0
+        while (val > b if cmp == 'BGt' else val >= b) and n < 100000:
+          val -= c; n += 1
+          if val < 0: hits.append((mname, v, a, b, c)); break
+      for y in body: st(y, mname)
+  for m in f.modules:
+    for it in m['items']:
+      if it[0] in ('comb', 'ff'):
+        for y in it[2]: st(y, m['name'])
+  return hits
